@@ -72,7 +72,25 @@ def hasRecv (g : Glue) (h : Bytes) : Bool × Glue :=
 def pushRecv (g : Glue) (h : Bytes) : Glue :=
   { g with received := lruInsert MAX_TRACK_SIZE g.received h () }
 
-/-- a frame arriving from the remote, as far as the glue is concerned -/
+/-- the four PIBD trees (`Get*Segment` / `*Segment` message pairs) -/
+inductive SegKind
+  | bitmap | output | rangeproof | kernel
+deriving DecidableEq, Repr
+
+def SegKind.reqType : SegKind → Nat
+  | .bitmap => T_GetOutputBitmapSegment
+  | .output => T_GetOutputSegment
+  | .rangeproof => T_GetRangeProofSegment
+  | .kernel => T_GetKernelSegment
+
+def SegKind.respType : SegKind → Nat
+  | .bitmap => T_OutputBitmapSegment
+  | .output => T_OutputSegment
+  | .rangeproof => T_RangeProofSegment
+  | .kernel => T_KernelSegment
+
+/-- a `Message` handed to `Protocol::consume`, as far as the glue is concerned (every variant of
+`enum Message` except `Unknown`, which the reader loop drops before the handler) -/
 inductive In
   | ping (td h : Nat)
   | pong (td h : Nat)
@@ -91,20 +109,45 @@ inductive In
   | getHeaders (n : Nat)
   /-- `TxHashSetArchive { hash, bytes }` -/
   | archive (h : Bytes) (bytes : Nat)
+  /-- `Attachment(update, _)`: a chunk of the archive has been written to the file; `left` bytes to come -/
+  | attachment (h : Bytes) (size left : Nat)
+  /-- `Headers(data)`: one batch of `n` headers -/
+  | headers (n : Nat)
+  /-- `PeerAddrs` with `n` entries -/
+  | peerAddrs (n : Nat)
+  /-- `TxHashSetRequest`: does `txhashset_archive_header()` succeed, does `txhashset_read` give a file? -/
+  | txhashsetReq (hdrOk found : Bool)
+  /-- `Get*Segment`: does the adapter produce the segment? -/
+  | getSegment (k : SegKind) (found : Bool)
+  /-- `*Segment` response -/
+  | segment (k : SegKind)
 deriving Repr
 
-/-- the calls the underlying adapter sees -/
+/-- the calls the underlying adapter sees (every `NetAdapter` / `ChainAdapter` method `Protocol::consume`
+uses, in the order it uses them) -/
 inductive Call
   | peerDifficulty (addr : SockAddr) (td h : Nat)
+  | totalDifficulty
+  | totalHeight
   | kernel (h : Bytes)
   | tx (k0 : Bytes) (stem : Bool)
   | block (h : Bytes) (opts : Nat)
   | cblock (h : Bytes)
   | header (h : Bytes)
+  | headers (n : Nat)
+  | peerAddrs (n : Nat)
   | getBlock (h : Bytes)
   | getTx (h : Bytes)
   | findPeers (caps : Nat)
   | locate (n : Nat)
+  | archiveHeader
+  | txhashsetRead
+  | receiveReady
+  | downloadUpdate (done total : Nat)
+  | tmpfile
+  | txhashsetWrite (h : Bytes)
+  | getSegment (k : SegKind)
+  | recvSegment (k : SegKind)
 deriving DecidableEq, Repr
 
 /-- what `Protocol::consume` returns -/
@@ -114,17 +157,21 @@ inductive GOut
   the adapter's object serialised at `ver` -/
   | pong (td h : Nat)
   | stored (t : Nat)
+  /-- `Consumed::Response` of a message with an attachment (`add_attachment`) -/
+  | storedAtt (t : Nat)
   | attachment (size : Nat)
   | disconnect
   /-- `Err(Error::BadMessage)`: not tolerated by `try_break!` -/
   | badMessage
+  /-- an adapter error passed on by `?` as `Error::Chain`: tolerated by `try_break!`, nothing is sent -/
+  | chainErr
 deriving DecidableEq, Repr
 
 /-- `Protocol::consume` behind the `TrackingAdapter` -/
 def consumeGlue (g : Glue) (m : In) : Glue × List Call × GOut :=
   if g.banned then (g, [], .disconnect) else
   match m with
-  | .ping td h => (g, [.peerDifficulty g.addr td h], .pong g.td g.height)
+  | .ping td h => (g, [.peerDifficulty g.addr td h, .totalDifficulty, .totalHeight], .pong g.td g.height)
   | .pong td h => (g, [.peerDifficulty g.addr td h], .none)
   | .banReason => (g, [], .disconnect)
   | .kernel h => (pushRecv g h, [.kernel h], .none)
@@ -141,21 +188,36 @@ def consumeGlue (g : Glue) (m : In) : Glue × List Call × GOut :=
   | .getPeerAddrs caps => (g, [.findPeers caps], .stored T_PeerAddrs)
   | .getHeaders n => (g, [.locate n], .stored T_Headers)
   | .archive _ bytes =>
-    if !g.ready then (g, [], .badMessage)
-    else if !g.syncRequested then (g, [], .badMessage)
-    else ({ g with syncRequested := false }, [], .attachment bytes)
+    if !g.ready then (g, [.receiveReady], .badMessage)
+    else if !g.syncRequested then (g, [.receiveReady], .badMessage)
+    else ({ g with syncRequested := false }, [.receiveReady, .downloadUpdate 0 bytes, .tmpfile], .attachment bytes)
+  | .attachment h size left =>
+    (g, .downloadUpdate (size - left) size :: (if left = 0 then [.txhashsetWrite h] else []), .none)
+  | .headers n => (g, [.headers n], .none)
+  | .peerAddrs n => (g, [.peerAddrs n], .none)
+  | .txhashsetReq hdrOk found =>
+    if !hdrOk then (g, [.archiveHeader], .chainErr)
+    else (g, [.archiveHeader, .txhashsetRead], if found then .storedAtt T_TxHashSetArchive else .none)
+  | .getSegment k found => (g, [.getSegment k], if found then .stored k.respType else .none)
+  | .segment k => (g, [.recvSegment k], .none)
 
-/-- what the harness asks the `Peer` to send -/
+/-- what the harness asks the `Peer` to send: one constructor per `pub fn send_*` of `impl Peer` -/
 inductive Out
   | ping (td h : Nat)
+  | banReason
   | header (h : Bytes)
   | cblock (h : Bytes)
   | kernel (h : Bytes)
   /-- `send_transaction` of a transaction whose first kernel hashes to `k0` -/
   | tx (k0 : Bytes)
   | stem
+  | headerReq
+  | txReq
   | blockReq (h : Bytes) (opts : Nat)
+  | cblockReq
+  | peerReq
   | txhashsetReq
+  | segReq (k : SegKind)
 deriving Repr
 
 /-- `Peer::send_*`: the new state and the frame type put on the send channel (`none`: suppressed,
@@ -163,6 +225,7 @@ deriving Repr
 kernel hash. -/
 def sendGlue (g : Glue) : Out → Glue × Option Nat
   | .ping _ _ => (g, some T_Ping)
+  | .banReason => (g, some T_BanReason)
   | .header h => let (r, g') := hasRecv g h; (g', if r then none else some T_Header)
   | .cblock h => let (r, g') := hasRecv g h; (g', if r then none else some T_CompactBlock)
   | .kernel h => let (r, g') := hasRecv g h; (g', if r then none else some T_TransactionKernel)
@@ -170,8 +233,72 @@ def sendGlue (g : Glue) : Out → Glue × Option Nat
     let (r, g') := hasRecv g k0
     (g', if r then none else some (if g.caps &&& TX_KERNEL_HASH ≠ 0 then T_TransactionKernel else T_Transaction))
   | .stem => (g, some T_StemTransaction)
+  | .headerReq => (g, some T_GetHeaders)
+  | .txReq => (g, some T_GetTransaction)
   | .blockReq h opts => ({ g with requested := lruInsert MAX_TRACK_SIZE g.requested h opts }, some T_GetBlock)
+  | .cblockReq => (g, some T_GetCompactBlock)
+  | .peerReq => (g, some T_GetPeerAddrs)
   | .txhashsetReq => ({ g with syncRequested := true }, some T_TxHashSetRequest)
+  | .segReq k => (g, some k.reqType)
+
+/-! ## names, for the tie with the regenerated dispatch tables (`Gen/CodecDispatch.lean`) -/
+
+def SegKind.getName : SegKind → String
+  | .bitmap => "GetOutputBitmapSegment" | .output => "GetOutputSegment"
+  | .rangeproof => "GetRangeProofSegment" | .kernel => "GetKernelSegment"
+def SegKind.respName : SegKind → String
+  | .bitmap => "OutputBitmapSegment" | .output => "OutputSegment"
+  | .rangeproof => "RangeProofSegment" | .kernel => "KernelSegment"
+def SegKind.getMethod : SegKind → String
+  | .bitmap => "get_bitmap_segment" | .output => "get_output_segment"
+  | .rangeproof => "get_rangeproof_segment" | .kernel => "get_kernel_segment"
+def SegKind.recvMethod : SegKind → String
+  | .bitmap => "receive_bitmap_segment" | .output => "receive_output_segment"
+  | .rangeproof => "receive_rangeproof_segment" | .kernel => "receive_kernel_segment"
+def SegKind.sender : SegKind → String
+  | .bitmap => "send_bitmap_segment_request" | .output => "send_output_segment_request"
+  | .rangeproof => "send_rangeproof_segment_request" | .kernel => "send_kernel_segment_request"
+
+/-- the variant of `enum Message` the input stands for (= the arm of `Protocol::consume` that handles it) -/
+def In.arm : In → String
+  | .ping _ _ => "Ping" | .pong _ _ => "Pong" | .banReason => "BanReason" | .kernel _ => "TransactionKernel"
+  | .tx _ stem => if stem then "StemTransaction" else "Transaction"
+  | .block _ => "Block" | .cblock _ => "CompactBlock" | .header _ => "Header"
+  | .getBlock _ _ => "GetBlock" | .getCompactBlock _ _ => "GetCompactBlock" | .getTx _ _ => "GetTransaction"
+  | .getPeerAddrs _ => "GetPeerAddrs" | .getHeaders _ => "GetHeaders" | .archive _ _ => "TxHashSetArchive"
+  | .attachment _ _ _ => "Attachment" | .headers _ => "Headers" | .peerAddrs _ => "PeerAddrs"
+  | .txhashsetReq _ _ => "TxHashSetRequest" | .getSegment k _ => k.getName | .segment k => k.respName
+
+/-- the adapter method behind a call -/
+def Call.method : Call → String
+  | .peerDifficulty _ _ _ => "peer_difficulty" | .totalDifficulty => "total_difficulty" | .totalHeight => "total_height"
+  | .kernel _ => "tx_kernel_received" | .tx _ _ => "transaction_received" | .block _ _ => "block_received"
+  | .cblock _ => "compact_block_received" | .header _ => "header_received" | .headers _ => "headers_received"
+  | .peerAddrs _ => "peer_addrs_received" | .getBlock _ => "get_block" | .getTx _ => "get_transaction"
+  | .findPeers _ => "find_peer_addrs" | .locate _ => "locate_headers" | .archiveHeader => "txhashset_archive_header"
+  | .txhashsetRead => "txhashset_read" | .receiveReady => "txhashset_receive_ready"
+  | .downloadUpdate _ _ => "txhashset_download_update" | .tmpfile => "get_tmpfile_pathname"
+  | .txhashsetWrite _ => "txhashset_write" | .getSegment k => k.getMethod | .recvSegment k => k.recvMethod
+
+/-- name of a type byte in `enum Type` -/
+def typeName (t : Nat) : String :=
+  match typeTable.find? (fun e => e.2 == t) with
+  | some e => e.1
+  | none => "?"
+
+/-- the outcome as the generated table spells it -/
+def GOut.name : GOut → String
+  | .none => "None" | .pong _ _ => "Response:Pong" | .stored t => "Response:" ++ typeName t
+  | .storedAtt t => "Response:" ++ typeName t ++ "+attachment" | .attachment _ => "Attachment"
+  | .disconnect => "Disconnect" | .badMessage => "Err:BadMessage" | .chainErr => "?:Chain"
+
+/-- the `pub fn send_*` of `impl Peer` a request of the harness calls -/
+def Out.sender : Out → String
+  | .ping _ _ => "send_ping" | .banReason => "send_ban_reason" | .header _ => "send_header"
+  | .cblock _ => "send_compact_block" | .kernel _ => "send_tx_kernel_hash" | .tx _ => "send_transaction"
+  | .stem => "send_stem_transaction" | .headerReq => "send_header_request" | .txReq => "send_tx_request"
+  | .blockReq _ _ => "send_block_request" | .cblockReq => "send_compact_block_request" | .peerReq => "send_peer_request"
+  | .txhashsetReq => "send_txhashset_request" | .segReq k => k.sender
 
 /-- `Peer::is_abusive`: more than `MAX_PEER_MSG_PER_MIN` counted entries in the receive tracker -/
 def isAbusive (receivedEntries : List (Nat × Bool)) : Bool :=
